@@ -1,2 +1,244 @@
-(* C07 (ISC part) — the property theorems, and nothing else. *)
-From VF Require Import ISC.Outcomes ISC.PageRank ISC.Model ISC.Spec.
+(* C07 (ISC part: size-class analyzers, strategy calculators, Outcomes) —
+   the property theorems, and nothing else.  Models: Outcomes.v, PageRank.v,
+   Model.v; predicates evaluated on the implementation: Spec.v. *)
+From Coq Require Import List ZArith NArith QArith Bool String.
+From VF Require Import ISC.Outcomes ISC.OutcomesProofs ISC.PageRank ISC.PageRankProofs
+  ISC.StrategiesProofs ISC.Model ISC.Spec ISC.MapProofs ISC.Proofs ISC.ProtocolProofs ISC.SpecLink.
+Import ListNotations.
+Local Open Scope Z_scope.
+
+(* ================= Outcomes.IsFaster (score / denominator) ================= *)
+
+(* strictly inside (0,1) for all outcome sets (any lists, sorted or not) *)
+Theorem is_faster_open : forall a b, 0 <= fails a -> 0 <= fails b ->
+  0 < is_faster_score a b < is_faster_den a b.
+Proof. exact is_faster_open_l. Qed.
+Print Assumptions is_faster_open.
+
+(* x.IsFaster(y) + y.IsFaster(x) = 1: the scores add up to the (symmetric) denominator *)
+Theorem is_faster_antisym : forall a b,
+  is_faster_score a b + is_faster_score b a = is_faster_den a b.
+Proof. exact is_faster_antisym_l. Qed.
+Print Assumptions is_faster_antisym.
+
+Theorem is_faster_den_symmetric : forall a b, is_faster_den a b = is_faster_den b a.
+Proof. exact den_sym. Qed.
+Print Assumptions is_faster_den_symmetric.
+
+(* the predicate Corr.v evaluates on the two float results holds of the model, for every tolerance *)
+Theorem is_faster_monitor : forall eps a b, (0 <= eps)%Q -> 0 <= fails a -> 0 <= fails b ->
+  faster_ok eps (is_faster_q a b) (is_faster_q b a) = EmptyString.
+Proof. exact faster_ok_model. Qed.
+Print Assumptions is_faster_monitor.
+
+(* ================= page-rank strategy calculator (exact arithmetic) ================= *)
+
+(* The code builds m[i] (i = 0..n-1) and its power iteration ranges over them
+   as "column": new[j] += p[i] * m[i][j].  Every m[i] has non-negative entries
+   that sum to one (numerators over the common denominator mden) and length
+   n — i.e. the matrix whose COLUMNS are the m[i] is left (column) stochastic,
+   for all outcome sets with non-negative failure counts and every n. *)
+Theorem matrix_column_stochastic : forall os n, os_ok os ->
+  Forall (row_ok (mden os n) n) (matrix os n).
+Proof. exact matrix_rows_ok. Qed.
+Print Assumptions matrix_column_stochastic.
+
+(* One multiplication, and hence ANY number k of iterations, keeps every entry
+   non-negative and the sum equal to the denominator (entries in [0,1], sum 1):
+   independent of the float convergence test. *)
+Theorem iterate_preserves_simplex : forall m d n,
+  Forall (row_ok d n) m -> List.length m = n -> 0 < d ->
+  forall k v dv, simplex n (v, dv) -> simplex n (iterate k m d n v dv).
+Proof. exact iterate_simplex. Qed.
+Print Assumptions iterate_preserves_simplex.
+
+(* The loop with its convergence test returns one of these iterates ... *)
+Theorem power_iteration_returns_an_iterate : forall m d n err fuel v dv,
+  exists k, power_iter fuel m d n err v dv = iterate k m d n v dv.
+Proof. exact power_iter_is_iterate. Qed.
+Print Assumptions power_iteration_returns_an_iterate.
+
+(* ... so whatever the test decides, its result is in the simplex. *)
+Theorem power_iteration_in_simplex : forall m d n err,
+  Forall (row_ok d n) m -> List.length m = n -> 0 < d ->
+  forall fuel v dv, simplex n (v, dv) -> simplex n (power_iter fuel m d n err v dv).
+Proof. exact power_iter_simplex. Qed.
+Print Assumptions power_iteration_in_simplex.
+
+(* Start vector.  As the code computed it before the fix
+   (strategies[0].Probability = 1 - sum, DESIGN §6 F10) it is in the simplex
+   exactly if the (non-negative) probabilities of classes 1..n-1 sum to at most
+   1 — in scaled form: sum of numerators <= common denominator ... *)
+Theorem unrepaired_start_vector_in_simplex_iff : forall ps, probs_nonneg ps ->
+  (simplex (S (List.length ps)) (start_vector_unclamped ps)
+   <-> zsum (fst (scaled ps)) <= snd (scaled ps)).
+Proof. exact start_unclamped_simplex_iff. Qed.
+Print Assumptions unrepaired_start_vector_in_simplex_iff.
+
+(* ... and stored values strictly inside (0,1) (which the code restores) can
+   violate that: witness 9/10, 9/10. *)
+Theorem unrepaired_start_vector_refuted :
+  exists ps, probs_nonneg ps /\ Forall (fun q => (0 < q)%Q /\ (q < 1)%Q) ps /\
+             ~ simplex (S (List.length ps)) (start_vector_unclamped ps).
+Proof. exact start_unclamped_refuted. Qed.
+Print Assumptions unrepaired_start_vector_refuted.
+
+(* The start vector of the current code is in the simplex for ALL stored
+   probabilities. *)
+Theorem start_vector_in_simplex : forall ps, probs_nonneg ps ->
+  simplex (S (List.length ps)) (start_vector ps).
+Proof. exact start_vector_simplex. Qed.
+Print Assumptions start_vector_in_simplex.
+
+Theorem restored_probability_nonneg : forall q, 0 <= Qnum (restore q).
+Proof. exact restore_nonneg. Qed.
+Print Assumptions restored_probability_nonneg.
+
+(* GetStrategies, for every stored message, size-class list, original timeout
+   >= 0 and configuration with minimum timeout >= 0: each probability in
+   [0,1], their sum <= 1 ... *)
+Theorem probabilities_in_range : forall c m scs og, 0 <= og -> 0 <= pr_min c ->
+  Forall (fun s => (0 <= s_prob s <= 1)%Q) (fst (get_strategies c m scs og)) /\
+  (PageRankProofs.qsum (map s_prob (fst (get_strategies c m scs og))) <= 1)%Q.
+Proof. exact probabilities_in_range_l. Qed.
+Print Assumptions probabilities_in_range.
+
+(* ... every foreground timeout and every background timeout between 0 and
+   the original ... *)
+Theorem timeout_in_range : forall c m scs og, 0 <= og -> 0 <= pr_min c ->
+  Forall (fun s => 0 <= s_tmo s <= og) (fst (get_strategies c m scs og)) /\
+  (forall m' scs' i t, bg_timeout c m' scs' i og = Some t -> 0 <= t <= og).
+Proof. exact timeout_in_range_l. Qed.
+Print Assumptions timeout_in_range.
+
+(* ... at most one strategy per size class (with the other two: wf_strategies). *)
+Theorem strategies_well_formed : forall c m scs og, 0 <= og -> 0 <= pr_min c ->
+  wf_strategies (List.length scs) og (fst (get_strategies c m scs og)).
+Proof. exact get_strategies_wf. Qed.
+Print Assumptions strategies_well_formed.
+
+(* the predicate Corr.v evaluates on the real GetStrategies output *)
+Theorem strategies_monitor : forall eps c m scs og, (0 <= eps)%Q -> 0 <= og -> 0 <= pr_min c ->
+  strategies_ok eps (List.length scs) og (fst (get_strategies c m scs og)) = EmptyString.
+Proof. exact strategies_monitor_l. Qed.
+Print Assumptions strategies_monitor.
+
+(* GetStrategies only touches the cached probabilities and creates empty entries *)
+Theorem get_strategies_records_nothing : forall c m scs og,
+  rec_list (snd (get_strategies c m scs og)) = rec_list m.
+Proof. exact rec_list_get_strategies. Qed.
+Print Assumptions get_strategies_records_nothing.
+
+Theorem smallest_calculator_well_formed : forall scs og, 0 <= og ->
+  wf_strategies (List.length scs) og (smallest_strategies scs og).
+Proof. exact smallest_wf. Qed.
+Print Assumptions smallest_calculator_well_formed.
+
+(* ================= analyzer / selector / learner protocol ================= *)
+
+(* For every configuration (feedback-driven with scripted, smallest or
+   page-rank calculator; fallback), every stored message with non-negative
+   durations and EVERY sequence of calls (calls the protocol does not permit
+   are no-ops), the monitor p_step of Spec.v — the one Corr.v runs on the
+   implementation's trace — accepts the model's trace: no panic; Select
+   returns a learner, an index < number of size classes, 0 <= timeout <=
+   original, 0 <= expected <= timeout; the handle is obtained once per
+   Analyze, released exactly once by the call that ends the session and by no
+   other; anything recorded is released dirty, an abandonment before
+   anything was recorded is released clean; a failure on a smaller size class
+   is retried, a retried or background run never is; at most one background
+   run; history lists bounded. *)
+Theorem protocol_trace_ok : forall c s0 ops,
+  cfg_ok c -> smap_nonneg (st_sc s0) -> ops_ok c (init_sess s0) ops ->
+  trace_ok c (init_ms s0) s0 (run c (init_sess s0) ops) = true.
+Proof. exact Proofs.protocol_trace_ok. Qed.
+Print Assumptions protocol_trace_ok.
+
+(* linear_handle: over any call sequence #Get = #Release + (1 while a learner
+   or a dead session holds the handle); per call at most one of each. *)
+Theorem linear_handle : forall c ops s,
+  (sum_gets (run c s ops) + holds c s = sum_rels (run c s ops) + holds c (final c s ops))%nat.
+Proof. exact handle_balance. Qed.
+Print Assumptions linear_handle.
+
+Theorem at_most_one_get_and_release_per_call : forall c s o,
+  (r_gets (step c s o) <= 1)%nat /\ (List.length (r_rels (step c s o)) <= 1)%nat.
+Proof. exact step_at_most_one. Qed.
+Print Assumptions at_most_one_get_and_release_per_call.
+
+(* dirty <=> something was recorded since Get (ghost flag / recording calls) *)
+Theorem dirty_iff_recorded : forall c s ms l o d,
+  Inv c s ms -> ph s = PLearner l -> r_rels (step c s o) = [d] ->
+  d = (recorded s || records l o).
+Proof. exact release_dirty_iff_recorded. Qed.
+Print Assumptions dirty_iff_recorded.
+
+(* retry_once_largest *)
+Theorem retry_learner_never_retries : forall c s l tout now l',
+  ph (r_sess (failed c s l tout now)) = PLearner l' ->
+  forall s' tout' now',
+    ph (r_sess (failed c s' l' tout' now')) = PIdle /\ r_out (failed c s' l' tout' now') = OutRetry 0 0 false.
+Proof. exact retry_learner_is_final. Qed.
+Print Assumptions retry_learner_never_retries.
+
+Theorem smaller_failure_retried_on_largest : forall c s sm smT lg lgT tout now,
+  exists ex, r_sess (failed c s (LSmallerFg sm smT lg lgT) tout now)
+             = mkSess (PLearner (LLargestFg sm ex lg)) (st s) (orig s) (recorded s) /\
+             r_out (failed c s (LSmallerFg sm smT lg lgT) tout now)
+             = OutRetry (expected (st_sc (st s)) lg lgT) lgT true /\
+             r_rels (failed c s (LSmallerFg sm smT lg lgT) tout now) = [].
+Proof. exact smaller_failure_is_retried. Qed.
+Print Assumptions smaller_failure_retried_on_largest.
+
+Theorem largest_failure_not_retried : forall c s l tout now,
+  match l with LLargest _ | LLargestBg _ _ _ | LLargestFg _ _ _ | LFbLargest => True | _ => False end ->
+  ph (r_sess (failed c s l tout now)) = PIdle /\ r_out (failed c s l tout now) = OutRetry 0 0 false.
+Proof. exact largest_failure_is_final. Qed.
+Print Assumptions largest_failure_not_retried.
+
+(* choice_in_range for Select (the scripted calculator is only assumed to
+   return at most n strategies with timeouts in [0, original]) *)
+Theorem choice_in_range : forall c s scs og now r script i e t l s',
+  cfg_ok c -> 0 <= og -> scs <> [] -> smap_nonneg (st_sc s) ->
+  (c_calc c = CScript -> script_ok (List.length scs) og script) ->
+  select_core c s scs og now r script = (i, e, t, l, s') ->
+  (i < List.length scs)%nat /\ 0 <= t <= og /\ 0 <= e <= t /\
+  rec_list (st_sc s') = rec_list (st_sc s) /\ st_lsf s' = st_lsf s /\
+  pe_from (st_sc s) (st_sc s') /\
+  match l with
+  | LLargest _ => i = (List.length scs - 1)%nat
+  | LLargestBg _ lgT _ => i = (List.length scs - 1)%nat /\ lgT = og /\ c_calc c <> CSmallest
+  | LSmallerFg _ _ _ lgT => lgT = og
+  | _ => False
+  end.
+Proof. exact select_core_ok. Qed.
+Print Assumptions choice_in_range.
+
+(* history_bounded, for every call in every state *)
+Theorem history_bounded : forall c s o,
+  hist_okP (c_hist c) (st_sc (st s)) (st_sc (st (r_sess (step c s o)))).
+Proof. exact step_history_bounded. Qed.
+Print Assumptions history_bounded.
+
+Theorem recorded_list_at_most_history_size : forall h sc o m,
+  (List.length (pe (m_get_d sc (add_exec h sc o m))) <= h)%nat.
+Proof. exact add_exec_bounded. Qed.
+Print Assumptions recorded_list_at_most_history_size.
+
+(* ActionTimeoutExtractor: the default, or the action's own value in [0, maximum] *)
+Theorem action_timeout_in_range : forall c t og, extract_timeout c t = Some og ->
+  (t = TAbsent /\ og = c_deft c) \/ (t = TVal og /\ 0 <= og <= c_maxt c).
+Proof. exact extract_timeout_range. Qed.
+Print Assumptions action_timeout_in_range.
+
+(* ================= non-vacuity ================= *)
+Theorem example_session_retry_and_dirty_release :
+  map (fun x => (o_out (snd x), o_rels (snd x))) (run ex_cfg (init_sess ex_stats) ex_ops)
+  = [ (OutChoice 0 4 12 true, []); (OutRetry 2 50 true, []); (OutChoice 0 0 0 false, [true]) ].
+Proof. exact ex_run. Qed.
+Print Assumptions example_session_retry_and_dirty_release.
+
+Theorem example_hypotheses_satisfiable :
+  cfg_ok ex_cfg /\ smap_nonneg (st_sc ex_stats) /\ ops_ok ex_cfg (init_sess ex_stats) ex_ops.
+Proof. exact ex_hypotheses. Qed.
+Print Assumptions example_hypotheses_satisfiable.
